@@ -81,6 +81,8 @@ impl ExtensionsMap {
         iter: &mut Peekable<impl Iterator<Item = &'a [u8]>>,
     ) -> Result<Self, ParserError> {
         let mut result = ExtensionsMap::default();
+        let mut seen_unicode = false;
+        let mut seen_transform = false;
 
         let mut st = iter.next();
         while let Some(subtag) = st {
@@ -89,9 +91,17 @@ impl ExtensionsMap {
             }
             match subtag.first().map(|b| ExtensionType::from_byte(*b)) {
                 Some(Ok(ExtensionType::Unicode)) => {
+                    if seen_unicode {
+                        return Err(ParserError::InvalidExtension);
+                    }
+                    seen_unicode = true;
                     result.unicode = UnicodeExtensionList::try_from_iter(iter)?;
                 }
                 Some(Ok(ExtensionType::Transform)) => {
+                    if seen_transform {
+                        return Err(ParserError::InvalidExtension);
+                    }
+                    seen_transform = true;
                     result.transform = TransformExtensionList::try_from_iter(iter)?;
                 }
                 Some(Ok(ExtensionType::Private)) => {
